@@ -1160,7 +1160,17 @@ impl<'c, 'a, 'w> PGen<'c, 'a, 'w> {
                 self.ch.label("effect-console");
                 let lv = *self.ch.pick(&["log", "debug", "info", "warn", "error"]);
                 let n = 1 + self.ch.below(3);
-                let args = (0..n).map(|_| { let t = self.ch.pick(&[T::Int, T::Str, T::Bool]).clone(); self.expr(&t, d.min(2)) }).collect();
+                let args = (0..n)
+                    .map(|_| {
+                        let t = self.ch.pick(&[T::Int, T::Str, T::Bool]).clone();
+                        let a = self.expr(&t, d.min(2));
+                        // a literal argument is passed as a C string: U+0000 would end it (known finding of C13, probed there)
+                        match strip_parens(&a) {
+                            E::Str(s, _) if s.contains('\0') => { let r: String = s.chars().filter(|c| *c != '\0').collect(); let sp = crate::qml::js_string(&r); E::Str(r, sp) }
+                            _ => a,
+                        }
+                    })
+                    .collect();
                 E::ConsoleLog(lv, args)
             }
             _ => {
